@@ -286,7 +286,7 @@ def run : Handler := fun req => do
         | .error _ => []
       let pathFields := structFields "Path"
       let used := segs.flatMap fun s => match s with | .param f => [f] | .mixed _ ps => ps | _ => []
-      if !okp then return verdict false (if dupFields .path then ["KnownParamFieldClash"] else []) why
+      if !okp then return verdict false (if dupFields .path then ["KnownParamFieldClash"] else if why == Oas3.Driver.Path.emptySegmentDroppedWhy then ["KnownEmptySegmentDropped"] else []) why
       if !used.all pathFields.contains then return verdict false [] "a pushed path field does not exist in the path struct"
       if pathFields.eraseDups.length != pathFields.length then return verdict false ["KnownParamFieldClash"] "duplicate field in the path struct"
       -- query / header presence
